@@ -297,7 +297,8 @@ def confirm(binary, v, idx):
 
 
 BOUNDS = {
-    'quick': dict(layouts=[(0, 0, 1, 0, 0), (1, 2, 3, 1, 1), (0, 0, 2, 0, 0)], nlines=2, specs='quick', per_kind=40, validate=30),
+    'quick': dict(layouts=[(0, 0, 1, 0, 0), (1, 2, 3, 1, 1), (0, 0, 2, 0, 0), (0, 1, 4, 2, 2), (1, 0, 4, 3, 0), (0, 2, 2, 1, 3)],
+              nlines=2, specs='quick', per_kind=150, validate=40),
     'thorough': dict(layouts=[(p, ind, n, t, pad) for p in (0, 1) for ind in (0, 2) for n in (1, 2, 4) for t in range(n) for pad in (0, 3)],
                      nlines=3, specs='thorough', per_kind=600, validate=150),
 }
